@@ -15,6 +15,7 @@
 #include "tbgen.hpp"
 #include "position.hpp"
 #include "random.hpp"
+#include "moveGen.hpp"
 #undef private
 #undef protected
 #include "harness.hpp"
@@ -168,6 +169,43 @@ static std::string handle(const std::vector<std::string>& a) {
         if (hit) os << " hit " << score; else os << " miss";
         return os.str();
     }
+    if (op == "legal" && n >= 4) { // tb legal <w|b> <code@sq>... : legal successors by Texel's ordinary move generator
+        if (a[1] != "w" && a[1] != "b") return "bad-op";
+        Position pos;
+        int nk[2] = {0, 0};
+        for (size_t i = 2; i < n; i++) {
+            size_t at = a[i].find('@');
+            if (at == std::string::npos) return "bad-op";
+            U64 code = vToU64(a[i].substr(0, at)), sq = vToU64(a[i].substr(at + 1));
+            if (code < 1 || code > 12 || code == 6 || code == 12 || sq > 63) return "bad-op";
+            if (pos.getPiece(Square((int)sq)) != Piece::EMPTY) return "bad-op";
+            if (code == Piece::WKING) nk[0]++;
+            if (code == Piece::BKING) nk[1]++;
+            pos.setPiece(Square((int)sq), (int)code);
+        }
+        if (nk[0] != 1 || nk[1] != 1 || n - 2 > 4) return "bad-op";
+        pos.setWhiteMove(a[1] == "w");
+        if (MoveGen::canTakeKing(pos)) return "illegal";
+        MoveList moves;
+        MoveGen::pseudoLegalMoves(pos, moves);
+        MoveGen::removeIllegal(pos, moves);
+        std::vector<std::string> succ;
+        for (int i = 0; i < moves.size; i++) {
+            UndoInfo ui;
+            pos.makeMove(moves[i], ui);
+            std::ostringstream ps;
+            ps << (pos.isWhiteMove() ? 'w' : 'b');
+            for (int sq = 0; sq < 64; sq++)
+                if (pos.getPiece(Square(sq)) != Piece::EMPTY) ps << ',' << pos.getPiece(Square(sq)) << '@' << sq;
+            succ.push_back(ps.str());
+            pos.unMakeMove(moves[i], ui);
+        }
+        std::sort(succ.begin(), succ.end());
+        std::ostringstream os;
+        os << "chk=" << (MoveGen::inCheck(pos) ? 1 : 0) << " n=" << succ.size();
+        for (auto& x : succ) os << ' ' << x;
+        return os.str();
+    }
     return "bad-op";
 }
 static VReg reg("tb", handle);
@@ -276,3 +314,90 @@ static std::string abortOp(const std::vector<std::string>& a) {
     return os.str();
 }
 static VReg regAbort("tbabort", abortOp);
+
+// ---- histories of updateTB / unsuitable roots / hash stores / clear (tie for TB/Abort.lean) ------------------
+// tbseq ev...   ev = u:<8 digits>:f | u:<8 digits>:t | u:<8 digits>:a:<phase>:<n> | x | s:<count> | c
+// reply per event: <ret>,<tbGen present>,<usedSize reduced>,<ok>   ok = not present, or the resident bytes equal a
+// table freshly generated with VectorStorage for the generator's material (the property's predicate)
+#include <map>
+static std::map<std::string, std::vector<U8>>& refTables() { static std::map<std::string, std::vector<U8>> m; return m; }
+static const std::vector<U8>& refTable(const PieceCount& pc) {
+    std::ostringstream k;
+    k << pc.nwq << pc.nwr << pc.nwb << pc.nwn << pc.nbq << pc.nbr << pc.nbb << pc.nbn;
+    auto it = refTables().find(k.str());
+    if (it != refTables().end()) return it->second;
+    VectorStorage vs; TBGenerator<VectorStorage> g(vs, pc);
+    RelaxedShared<S64> inf(-1);
+    g.generate(inf, false);
+    TBPosition tp(pc);
+    std::vector<U8> v(tp.nPositions());
+    for (U32 i = 0; i < tp.nPositions(); i++) v[i] = (U8)vs[i].getState();
+    return refTables()[k.str()] = v;
+}
+static bool parseDigits(const std::string& s, PieceCount& pc) {
+    if (s.size() != 8) return false;
+    std::vector<std::string> a;
+    for (char c : s) { if (c < '0' || c > '9') return false; a.push_back(std::string(1, c)); }
+    return parseCounts(a, 0, pc);
+}
+static std::string seqOp(const std::vector<std::string>& a) {
+    TranspositionTable tt(TT_ENTRIES);
+    Random rnd(12345);
+    std::ostringstream os;
+    for (size_t e = 0; e < a.size(); e++) {
+        std::vector<std::string> f;
+        { std::istringstream is(a[e]); std::string t; while (std::getline(is, t, ':')) f.push_back(t); }
+        bool ret = true;
+        if (f.empty()) return "bad-op";
+        if (f[0] == "u" && f.size() >= 3) {
+            PieceCount pc;
+            if (!parseDigits(f[1], pc)) return "bad-op";
+            Position pos; classPosition(pc, pos);
+            if (f[2] == "f" && f.size() == 3) {
+                RelaxedShared<S64> maxT(-1);
+                ret = tt.updateTB(pos, maxT);
+            } else if (f[2] == "t" && f.size() == 3) {
+                RelaxedShared<S64> maxT(1);
+                ret = tt.updateTB(pos, maxT);
+            } else if (f[2] == "a" && f.size() == 5) {
+#ifdef TEXEL_VERIF
+                RelaxedShared<S64> maxT(-1);
+                hookMaxT = &maxT; hookPhase = (int)vToU64(f[3]); hookN = (int)vToU64(f[4]); hookNew = 0; hookFired = false;
+                tbGenVerifHook = abortHook;
+                ret = tt.updateTB(pos, maxT);
+                tbGenVerifHook = nullptr; hookMaxT = nullptr;
+#else
+                return "no-hook";
+#endif
+            } else return "bad-op";
+        } else if (f[0] == "x" && f.size() == 1) {
+            PieceCount pc; pc.nwq = 1; pc.nwr = pc.nwb = pc.nwn = pc.nbq = pc.nbr = pc.nbb = pc.nbn = 0;
+            Position pos; classPosition(pc, pos);
+            pos.setPiece(Square(12), Piece::WPAWN);
+            RelaxedShared<S64> maxT(-1);
+            ret = tt.updateTB(pos, maxT);
+        } else if (f[0] == "s" && f.size() == 2) {
+            U64 cnt = vToU64(f[1]);
+            if (cnt > 50000000ULL) return "bad-op";
+            for (U64 i = 0; i < cnt; i++) {
+                U64 key = rnd.nextU64();
+                Move m(Square((int)(key & 63)), Square((int)((key >> 6) & 63)), Piece::EMPTY, (int)((key >> 12) % 2001) - 1000);
+                tt.insert(key, m, 1 + (int)((key >> 30) % 3), (int)((key >> 34) % 20), (int)((key >> 40) % 30), (int)((key >> 48) % 2001) - 1000);
+            }
+        } else if (f[0] == "c" && f.size() == 1) {
+            tt.clear();
+        } else return "bad-op";
+        bool present = tt.tbGen != nullptr;
+        bool reduced = tt.usedSize != tt.tableSize;
+        bool ok = true;
+        if (present) {
+            const std::vector<U8>& ref = refTable(tt.tbGen->pieceCount);
+            for (size_t i = 0; i < ref.size(); i++)
+                if ((U8)tt.ttStorage[(U32)i].getState() != ref[i]) { ok = false; break; }
+        }
+        if (e) os << ' ';
+        os << ret << ',' << present << ',' << reduced << ',' << ok;
+    }
+    return os.str();
+}
+static VReg regSeq("tbseq", seqOp);
